@@ -167,6 +167,77 @@ async fn rawpeer(c: &Value) -> Value {
   json!({"rows": rows, "closed_by_socket": closed_by_socket, "eof_ms": eof_ms})
 }
 
+/// Two real sockets of the given types: `binder` binds, `connector` connects over the transport.
+/// Observes whether the connection is established (handshake success / connect Ok) or refused.
+/// rows: [[verdict]] with 1 = connected, 0 = refused/failed, 2 = undecided within the deadline.
+async fn typepair(c: &Value) -> Value {
+  use rzmq::socket::SocketEvent;
+  let ctx = Context::new().expect("ctx");
+  let binder = ctx.socket(stype_of(c["binder"].as_str().unwrap())).expect("socket");
+  let connector = ctx.socket(stype_of(c["connector"].as_str().unwrap())).expect("socket");
+  let tr = c["transport"].as_str().unwrap();
+  let ep = match tr {
+    "tcp" => format!("tcp://127.0.0.1:{}", free_port()),
+    "ipc" => format!("ipc:///var/tmp/vh_c05_{}_{}.sock", std::process::id(), free_port()),
+    _ => format!("inproc://vh-c05-{}", free_port()),
+  };
+  // bound how long an unanswered handshake may take, so that a verdict always arrives
+  apply_opts(&binder, &json!({"HANDSHAKE_IVL": 2500})).await;
+  apply_opts(&connector, &json!({"HANDSHAKE_IVL": 2500})).await;
+  let mon = connector.monitor_default().await.expect("monitor");
+  let mut verdict = 2u64;
+  let mut detail = String::new();
+  let mut seen: Vec<String> = Vec::new();
+  match binder.bind(&ep).await {
+    Ok(()) => {}
+    Err(e) => return json!({"rows": [[3]], "detail": format!("bind failed: {e}")}),
+  }
+  tokio::time::sleep(Duration::from_millis(30)).await;
+  match connector.connect(&ep).await {
+    Err(e) => {
+      verdict = 0;
+      detail = format!("connect: {e}");
+    }
+    Ok(()) => {
+      if tr == "inproc" {
+        verdict = 1;
+      } else {
+        let deadline = Instant::now() + Duration::from_millis(9000);
+        while Instant::now() < deadline {
+          match tokio::time::timeout(Duration::from_millis(100), mon.recv()).await {
+            Ok(Ok(ev)) => { seen.push(format!("{:?}", ev).split_whitespace().next().unwrap_or("").to_string()); match ev {
+              SocketEvent::HandshakeSucceeded { .. } => {
+                verdict = 1;
+                break;
+              }
+              SocketEvent::HandshakeFailed { error_msg, .. } => {
+                verdict = 0;
+                detail = error_msg;
+                break;
+              }
+              SocketEvent::Disconnected { .. } | SocketEvent::ConnectFailed { .. } => {
+                verdict = 0;
+                detail = "disconnected".into();
+                break;
+              }
+              _ => {}
+            }},
+            _ => {}
+          }
+        }
+      }
+    }
+  }
+  if verdict == 2 { detail = format!("events: {:?}", seen); }
+  let _ = tokio::time::timeout(Duration::from_secs(3), connector.close()).await;
+  let _ = tokio::time::timeout(Duration::from_secs(3), binder.close()).await;
+  let _ = tokio::time::timeout(Duration::from_secs(5), ctx.term()).await;
+  if tr == "ipc" {
+    let _ = std::fs::remove_file(ep.trim_start_matches("ipc://"));
+  }
+  json!({"rows": [[verdict]], "detail": detail})
+}
+
 pub fn run_case(c: &Value) -> Value {
   let threads = c.get("threads").and_then(|v| v.as_u64()).unwrap_or(2) as usize;
   let rt = if threads <= 1 {
@@ -181,6 +252,7 @@ pub fn run_case(c: &Value) -> Value {
       let fut = async {
         match kind.as_str() {
           "rawpeer" => rawpeer(&c2).await,
+          "typepair" => typepair(&c2).await,
           other => panic!("unknown stack scenario {other}"),
         }
       };
